@@ -1797,7 +1797,8 @@ func (p *Parser) parseRightSideExpression(left ast.BooleanExpression, single boo
 				Right:    right,
 			}
 		}
-		if p.curToken.Literal == token.RPAREN {
+		if p.curToken.Type != token.OR {
+			// End of this level: ')' or a stray token, which the caller reports.
 			return grouped, impData, nil
 		}
 		operator = p.curToken.Type
